@@ -475,6 +475,18 @@ def runCase (e : SExp) : Array String :=
         ((o.put "enc" (String.join ((encode T nm p sl).map elemRaw))).put "wfh"
           ((if wfh T p sl then "1" else "0") ++ (if recoverable p sl then "1" else "0"))).put "truth" (forestS (truth T nm p 0 none sl))
       | _ => o) o
+    -- what the HISTORIES say about every branch (copies placed on it by duplication events, events x (copies - 1)):
+    -- computed from the histories alone, compared by the harness with the numbers of pyham's whole-dataset tree profile
+    let hs : List (Taxon × SL) := (findField "histories" fields).filterMap fun h =>
+      match h with
+      | .list [t, l] => some (decTaxon t, decSL l)
+      | _ => none
+    let o := if want.contains "profiles" && !hs.isEmpty then
+        T.allTaxa.foldl (fun o t =>
+          if t.isEmpty then o else
+          o.put "hdup" (taxS t ++ "=" ++ toString ((hs.map fun f => copiesInto t f.1 f.2).sum) ++ "," ++
+            toString ((hs.map fun f => copiesInto t f.1 f.2 - eventsInto t f.1 f.2).sum))) o
+      else o
     let (o, H?) := match load T nm inp with
       | .error err => (o.put "load" ("err:" ++ err.toStr), none)
       | .ok H =>
